@@ -13,15 +13,21 @@
 (*                                                                         *)
 (* What is transcribed (file:line of /repo/etcd/raft):                     *)
 (*   Campaign            rawnode.go Campaign -> raft.go hup/campaign       *)
-(*                        778-853, becomeCandidate 709-720                 *)
+(*                        778-853, becomeCandidate 709-720,                *)
+(*                        becomePreCandidate 722-736 (PreVote = TRUE)      *)
 (*   Propose             raft.go stepLeader MsgProp 1028-1086,             *)
 (*                        appendEntry 638-656, bcastAppend 518-525         *)
 (*   Heartbeat           raft.go tickHeartbeat 671-698, bcastHeartbeat,    *)
 (*                        sendHeartbeat 498-514                            *)
-(*   Deliver*            raft.go Step 865-1005 (term prologue, vote        *)
-(*                        granting), stepLeader MsgAppResp 1115-1297,      *)
+(*   Deliver*            raft.go Step 865-1005 (term prologue incl. the    *)
+(*                        MsgPreVote / MsgPreVoteResp exceptions 882-899   *)
+(*                        and the lower-term replies 901-937, vote and     *)
+(*                        pre-vote granting 948-996), poll 855-863,        *)
+(*                        stepLeader MsgAppResp 1115-1297,                 *)
 (*                        MsgHeartbeatResp 1298-1308, stepCandidate        *)
-(*                        1390-1433, stepFollower 1435-1487,               *)
+(*                        1390-1433 (myVoteRespType filter 1394-1399,      *)
+(*                        pre-vote won -> campaign(campaignElection)       *)
+(*                        1418-1419), stepFollower 1435-1487,              *)
 (*                        handleAppendEntries 1489-1525, handleHeartbeat;  *)
 (*                        log.go maybeAppend 88-108, findConflict,         *)
 (*                        findConflictByTerm, isUpToDate, maybeCommit;     *)
@@ -34,9 +40,15 @@
 (*                        raft.go newRaft 318-370, loadState 1719-1726     *)
 (*                                                                         *)
 (* Scope: fixed voter set Server (no membership change, no snapshots, no   *)
-(* PreVote / CheckQuorum / ReadIndex / leader transfer in THIS module;     *)
-(* those are exercised on the real code by raftsim's random scheduler and  *)
-(* judged by RaftObs.tla).  MaxInflightMsgs is large (never full);         *)
+(* CheckQuorum / ReadIndex / leader transfer in THIS module; those are     *)
+(* exercised on the real code by raftsim's random scheduler and judged by  *)
+(* RaftObs.tla).  PreVote (Config.PreVote, with CheckQuorum off, i.e. no   *)
+(* leader lease) IS modelled: CONSTANT PreVote = TRUE gives the two-phase  *)
+(* election (role "P" = StatePreCandidate, messages "PreVote" and          *)
+(* "PreVoteResp"), PreVote = FALSE the plain one; the instances            *)
+(* MC_Raft3_prevote*.cfg check it and raftsim replays / trace-validates    *)
+(* it with raft.Config.PreVote = true.                                     *)
+(* MaxInflightMsgs is large (never full);                                  *)
 (* MaxSizePerMsg is unlimited (MaxEnts = 0) or one entry per MsgApp        *)
 (* (MaxEnts = 1, i.e. Config.MaxSizePerMsg = 0); proposal forwarding is    *)
 (* disabled in the harness.                                                *)
@@ -62,15 +74,19 @@ CONSTANTS Server,            \* 1..N, N >= 2
           W_NoPersistVote,          \* HardState.Vote not persisted
           W_AppendAlwaysTruncates,  \* log.go maybeAppend: truncate+append even without conflict
           W_HeartbeatCommitUnbounded, \* raft.go sendHeartbeat: commit not capped by Match
-          W_QuorumMinusOne          \* quorum/majority.go: q = n/2 instead of n/2+1
+          W_QuorumMinusOne,         \* quorum/majority.go: q = n/2 instead of n/2+1
+          PreVote,                  \* raft.Config.PreVote (BOOLEAN): two-phase election; FALSE = exactly the module without it
+          W_PreVoteRespCountsAsVote \* raft.go stepCandidate 1394-1399/1413: the per-state filter `case myVoteRespType` removed, i.e.
+                                    \* a (pre-)candidate tallies MsgVoteResp and MsgPreVoteResp alike
 
 ASSUME Cardinality(Server) >= 2
+ASSUME PreVote \in BOOLEAN
 
-VARIABLES role,     \* "F" follower, "C" candidate, "L" leader, "D" down (crashed)
+VARIABLES role,     \* "F" follower, "P" pre-candidate (PreVote only), "C" candidate, "L" leader, "D" down (crashed)
           term, vote, lead, log, commit, applied,
           hs,       \* persisted HardState [term, vote, commit] (last written)
           sc,       \* commit value of the last SYNCED HardState write (MustSync)
-          votes,    \* candidate: j -> "n" none, "y" granted, "r" rejected
+          votes,    \* (pre-)candidate: j -> "n" none, "y" granted, "r" rejected (tracker.Votes; reset by every becomeX)
           pr,       \* leader: j -> [match, next, state, probesent]
           net,      \* bag of messages: message -> count
           nprop, ncrash, ndrop, ndup, nhb,   \* budgets
@@ -232,14 +248,25 @@ Init ==
     /\ elected = {} /\ gc = <<>> /\ gct = <<>> /\ lcok = TRUE
     /\ act = [name |-> "Init"]
 
-(* RawNode.Campaign(): MsgHup -> hup -> campaign(campaignElection) *)
+(* campaign 831-852: one request per other voter, in id order, carrying the sender's last index / last term *)
+VoteReqs(i, ty, t) ==
+    Concat([j \in Server \ {i} |-> <<Msg(ty, i, j, t, Len(log[i]), LastTerm(log[i]), 0, FALSE, 0, <<>>)>>], Server \ {i})
+
+(* RawNode.Campaign(): MsgHup -> Step 941-946 -> hup -> campaign(campaignElection), or, with PreVote,                 *)
+(* campaign(campaignPreElection): becomePreCandidate 722-736 changes state ("P"), the vote tally (ResetVotes + own     *)
+(* pre-vote by poll 821) and lead (None) but NOT Term and NOT Vote; the MsgPreVote requests carry Term + 1 (815).      *)
+(* Nothing of the HardState changes, so nothing is persisted.  (A quorum of one - the `res == VoteWon` shortcut at     *)
+(* 821-830 - needs a single-voter configuration: excluded by N >= 2.)  A pre-candidate or candidate may campaign again. *)
 Campaign(i) ==
     /\ i \in Campaigners /\ Up(i) /\ role[i] # "L" /\ term[i] < MaxTerm
-    /\ LET t == term[i] + 1
-           ms == Concat([j \in Server \ {i} |-> <<Msg("Vote", i, j, t, Len(log[i]), LastTerm(log[i]), 0, FALSE, 0, <<>>)>>], Server \ {i})
-       IN /\ Update(i, "C", t, i, 0, log[i], commit[i], [NoVotes EXCEPT ![i] = "y"], NoPr, FALSE)
-          /\ Hist(i, "C", t, log[i])
-          /\ SendSome(net, ms, [name |-> "Campaign", i |-> i])
+    /\ IF PreVote
+       THEN /\ Update(i, "P", term[i], vote[i], 0, log[i], commit[i], [NoVotes EXCEPT ![i] = "y"], NoPr, FALSE)
+            /\ Hist(i, "P", term[i], log[i])
+            /\ SendSome(net, VoteReqs(i, "PreVote", term[i] + 1), [name |-> "Campaign", i |-> i])
+       ELSE LET t == term[i] + 1
+            IN /\ Update(i, "C", t, i, 0, log[i], commit[i], [NoVotes EXCEPT ![i] = "y"], NoPr, FALSE)
+               /\ Hist(i, "C", t, log[i])
+               /\ SendSome(net, VoteReqs(i, "Vote", t), [name |-> "Campaign", i |-> i])
     /\ Budgets
 
 (* becomeLeader + bcastAppend + the leader's own ack in advance() *)
@@ -273,11 +300,15 @@ Heartbeat(i) ==
     /\ nhb' = nhb + 1
     /\ UNCHANGED <<nodeVars, nprop, ncrash, ndrop, ndup, elected, gc, gct, lcok>>
 
-(* Step prologue (raft.go 867-938): state of m.to after the term comparison, for m.tm >= term *)
-T0(m) == IF m.tm > term[m.to] THEN m.tm ELSE term[m.to]
-V0(m) == IF m.tm > term[m.to] THEN 0 ELSE vote[m.to]
-R0(m) == IF m.tm > term[m.to] THEN "F" ELSE role[m.to]
-L0(m) == IF m.tm > term[m.to] THEN (IF m.ty \in {"App", "HB"} THEN m.fr ELSE 0) ELSE lead[m.to]
+(* Step prologue (raft.go 867-938): state of m.to after the term comparison, for m.tm >= term.                      *)
+(* A higher term makes the receiver a follower of that term (882-899) EXCEPT for MsgPreVote ("never change our term   *)
+(* in response to a PreVote", 883-884) and for a GRANTED MsgPreVoteResp (885-890: it carries the pre-candidate's      *)
+(* future term); a REJECTED MsgPreVoteResp carries the rejector's term and falls into the default branch.             *)
+Bump(m) == m.tm > term[m.to] /\ m.ty # "PreVote" /\ ~(m.ty = "PreVoteResp" /\ ~m.rj)
+T0(m) == IF Bump(m) THEN m.tm ELSE term[m.to]
+V0(m) == IF Bump(m) THEN 0 ELSE vote[m.to]
+R0(m) == IF Bump(m) THEN "F" ELSE role[m.to]
+L0(m) == IF Bump(m) THEN (IF m.ty \in {"App", "HB"} THEN m.fr ELSE 0) ELSE lead[m.to]
 
 Receivable(m) == m \in DOMAIN net /\ Up(m.to)
 
@@ -285,34 +316,64 @@ Finish(m, ms) ==
     /\ SendSome(BagDel(net, m), ms, [name |-> "Deliver", m |-> m])
     /\ Budgets
 
-(* a message from a lower term: ignored (CheckQuorum and PreVote are off) *)
+(* a message from a lower term (raft.go 901-937) changes nothing at the receiver.  Without PreVote (and CheckQuorum) *)
+(* it is ignored.  With PreVote a MsgApp / MsgHeartbeat of a deposed leader is answered by an (otherwise empty)       *)
+(* MsgAppResp at the receiver's term (902-924), which makes that leader step down; a MsgPreVote is rejected with the  *)
+(* receiver's term (925-931, whatever r.preVote says - without PreVote there are no such messages).                   *)
 DeliverStale(m) ==
     /\ Receivable(m) /\ m.tm < term[m.to]
     /\ UNCHANGED <<nodeVars, elected, gc, gct, lcok>>
-    /\ Finish(m, <<>>)
+    /\ Finish(m, IF PreVote /\ m.ty \in {"App", "HB"}
+                 THEN <<Msg("AppResp", m.to, m.fr, term[m.to], 0, 0, 0, FALSE, 0, <<>>)>>
+                 ELSE IF m.ty = "PreVote"
+                 THEN <<Msg("PreVoteResp", m.to, m.fr, term[m.to], 0, 0, 0, TRUE, 0, <<>>)>>
+                 ELSE <<>>)
 
+(* MsgVote and MsgPreVote are answered by Step itself, in every state (raft.go 948-996).  A MsgPreVote never       *)
+(* changes the receiver (no term change in the prologue, "only record real votes" 987-991): R0/T0/V0/L0 are the       *)
+(* current values.  canVote 950-954; a grant is answered with the term OF THE REQUEST (986: for a pre-vote that is    *)
+(* the candidate's future term), a rejection with the receiver's term (995).                                         *)
 DeliverVote(m) ==
-    /\ Receivable(m) /\ m.ty = "Vote" /\ m.tm >= term[m.to]
+    /\ Receivable(m) /\ m.ty \in {"Vote", "PreVote"} /\ m.tm >= term[m.to]
     /\ LET i == m.to
-           canVote == W_VoteIgnoreVoted \/ V0(m) = m.fr \/ (V0(m) = 0 /\ L0(m) = 0)
+           pre == m.ty = "PreVote"
+           canVote == W_VoteIgnoreVoted \/ V0(m) = m.fr \/ (V0(m) = 0 /\ L0(m) = 0) \/ (pre /\ m.tm > T0(m))
            grant == canVote /\ (W_VoteIgnoreLog \/ IsUpToDate(log[i], m.ix, m.lt))
-       IN /\ Update(i, R0(m), T0(m), IF grant THEN m.fr ELSE V0(m), L0(m), log[i], commit[i],
+       IN /\ Update(i, R0(m), T0(m), IF grant /\ ~pre THEN m.fr ELSE V0(m), L0(m), log[i], commit[i],
                     IF R0(m) = role[i] THEN votes[i] ELSE NoVotes, pr[i], FALSE)
           /\ Hist(i, R0(m), T0(m), log[i])
-          /\ Finish(m, <<Msg("VoteResp", i, m.fr, IF grant THEN m.tm ELSE T0(m), 0, 0, 0, ~grant, 0, <<>>)>>)
+          /\ Finish(m, <<Msg(IF pre THEN "PreVoteResp" ELSE "VoteResp", i, m.fr, IF grant THEN m.tm ELSE T0(m), 0, 0, 0, ~grant, 0, <<>>)>>)
 
+(* MsgVoteResp / MsgPreVoteResp with m.tm >= term.  After the prologue only a candidate ("C") or pre-candidate ("P")  *)
+(* looks at them (stepCandidate 1390-1433; stepFollower and stepLeader have no case for them), and only at the type   *)
+(* that matches its state: `case myVoteRespType` 1394-1399, 1413 - a candidate may still receive MsgPreVoteResp of    *)
+(* its own pre-candidacy, whose term (the future term it asked for) is now its term.  poll 855-863 records the first  *)
+(* answer of each peer only (tracker.RecordVote).  VoteWon: a pre-candidate starts the real election                 *)
+(* (campaign(campaignElection) 1418-1419: becomeCandidate 709-720 = term + 1, vote for itself, fresh tally; MsgVote   *)
+(* to every peer), a candidate becomes leader.  VoteLost: follower of the CURRENT term (1424-1427, "m.Term > r.Term;  *)
+(* reuse r.Term").  Note that a pre-candidate also counts a granted MsgPreVoteResp of an earlier pre-candidacy of its *)
+(* own (same or future term): the library does not distinguish them either.                                          *)
 DeliverVoteResp(m) ==
-    /\ Receivable(m) /\ m.ty = "VoteResp" /\ m.tm >= term[m.to]
+    /\ Receivable(m) /\ m.ty \in {"VoteResp", "PreVoteResp"} /\ m.tm >= term[m.to]
     /\ LET i == m.to
-       IN IF R0(m) # "C"
-          THEN \* follower / leader: ignored (after a possible step-down by the prologue)
+           mine == \/ R0(m) = "C" /\ m.ty = "VoteResp"
+                   \/ R0(m) = "P" /\ m.ty = "PreVoteResp"
+                   \/ W_PreVoteRespCountsAsVote /\ R0(m) \in {"C", "P"}
+       IN IF ~mine
+          THEN \* ignored (after a possible step-down by the prologue)
                /\ Update(i, R0(m), T0(m), V0(m), L0(m), log[i], commit[i], IF R0(m) = role[i] THEN votes[i] ELSE NoVotes, pr[i], FALSE)
                /\ Hist(i, R0(m), T0(m), log[i])
                /\ Finish(m, <<>>)
-          ELSE LET vts == IF votes[i][m.fr] = "n" THEN [votes[i] EXCEPT ![m.fr] = IF m.rj THEN "r" ELSE "y"] ELSE votes[i]
+          ELSE \* R0(m) \in {"C", "P"}: the prologue changed nothing
+               LET vts == IF votes[i][m.fr] = "n" THEN [votes[i] EXCEPT ![m.fr] = IF m.rj THEN "r" ELSE "y"] ELSE votes[i]
                    yes == Cardinality({j \in Server : vts[j] = "y"})
                    no == Cardinality({j \in Server : vts[j] = "r"})
-               IN IF yes >= Quorum
+               IN IF yes >= Quorum /\ role[i] = "P"
+                  THEN LET t == term[i] + 1
+                       IN /\ Update(i, "C", t, i, 0, log[i], commit[i], [NoVotes EXCEPT ![i] = "y"], NoPr, FALSE)
+                          /\ Hist(i, "C", t, log[i])
+                          /\ Finish(m, VoteReqs(i, "Vote", t))
+                  ELSE IF yes >= Quorum
                   THEN LET s == LeaderStart(i, term[i], log[i], commit[i])
                        IN /\ Update(i, "L", term[i], vote[i], i, s.lg, s.c, NoVotes, s.P, TRUE)
                           /\ Hist(i, "L", term[i], s.lg)
@@ -321,8 +382,8 @@ DeliverVoteResp(m) ==
                   THEN /\ Update(i, "F", term[i], vote[i], 0, log[i], commit[i], NoVotes, NoPr, FALSE)
                        /\ Hist(i, "F", term[i], log[i])
                        /\ Finish(m, <<>>)
-                  ELSE /\ Update(i, "C", term[i], vote[i], lead[i], log[i], commit[i], vts, NoPr, FALSE)
-                       /\ Hist(i, "C", term[i], log[i])
+                  ELSE /\ Update(i, role[i], term[i], vote[i], lead[i], log[i], commit[i], vts, NoPr, FALSE)
+                       /\ Hist(i, role[i], term[i], log[i])
                        /\ Finish(m, <<>>)
 
 (* MsgApp: stepCandidate/stepFollower -> handleAppendEntries; a leader of the same term ignores it *)
